@@ -35,7 +35,9 @@ SEND_LATS = (0.0, 0.0, 0.1, 0.4)
 CODES = (1000, 1001, 1006, 1011, 4000)
 CLOSE_CODES = (None, 1000, 1001, 1011, 3000)
 RAW_BOGUS = ({"type": "websocket.bogus"}, {"type": "websocket.receive", "text": "x"}, {"type": "http.response.body", "body": b""},
-             {"type": "websocket.connect"})
+             {"type": "websocket.connect"},
+             # denial-response events are not part of what the wrapper's send() accepts (accept / send / close)
+             {"type": "websocket.http.response.start", "status": 403, "headers": []}, {"type": "websocket.http.response.body", "body": b"no"})
 STATE_EXC = ("RuntimeError", "AssertionError")
 RECV_OPS = ("receive", "receive_text", "receive_bytes", "iter_text", "iter_bytes")
 WAIT = 1000.0
